@@ -409,10 +409,29 @@ class BodyLocks:
 
 
 # ------------------------------------------------------------------------------------------ relations / verdicts
+def canon_path(path):
+    """model -> root element -> (child|parent)* -> model is the model itself: drop such round trips from an owner path"""
+    p = list(path)
+    changed = True
+    while changed:
+        changed = False
+        for i, tok in enumerate(p):
+            if tok == 'root':
+                j = i + 1
+                while j < len(p) and p[j] in ('child', 'parent'):
+                    j += 1
+                if j < len(p) and p[j] == 'model':
+                    del p[i:j + 1]
+                    changed = True
+                    break
+    return tuple(p)
+
+
 def relation(held_own, acq_own):
     """relation of the acquired object to the held object (both Element class): same | child | parent | fresh | other"""
     hb, hp = held_own
     ab, ap = acq_own
+    hp, ap = canon_path(hp), canon_path(ap)
     if ab == ('fresh',):
         return 'fresh'
     if hb[0] == 'unknown' or ab[0] == 'unknown':
